@@ -23,6 +23,7 @@ Tie: suite `e2e` drives the REAL `RealDriver` (mio/epoll, `DevInputReader`, `Tab
 `DevInputWriter`) around the real loop over pipes and compares the bytes with `wireOut`.
 -/
 import TmVerif.Proofs.EndToEnd
+import TmVerif.Proofs.EndToEndAny
 import TmVerif.Props.C10Closed
 import TmVerif.Props.C18
 
@@ -151,3 +152,43 @@ end TmVerif
 #print axioms TmVerif.E2E_tablet_reader_only
 #print axioms TmVerif.E2E_tablet_reader_roundtrip
 #print axioms TmVerif.E2E_tablet_reader_skip
+
+/-! ### Two devices readable at once (appended: the acceptor of the concurrent runs of suite e2e) -/
+
+namespace TmVerif
+
+/-- E2E, two devices at once: `wireAccepts` (request `E2EANY`) says yes EXACTLY when the bytes are
+`wireOfLog` of some read log whose keyboard part is what `DevInputReader` decodes from the keyboard
+bytes and whose tablet part is what `TabletModeSwitchReader` decodes from the tablet-switch bytes — i.e.
+of some interleaving of the two per-device logs.  By `E2E_closed` every run of the closed system at rest
+writes such bytes, so a conforming implementation is never flagged; and bytes that are accepted are
+explained by an order of reading. -/
+theorem E2E_any (L : Layout) (kb tb out : List Nat) :
+    wireAccepts L kb tb out = true ↔
+      ∃ lg : List Item, kbdOf lg = decodeStream kb ∧ tabOf lg = decodeTabletStream tb ∧
+        wireOfLog L State.init false lg = out :=
+  acceptsAny_iff L State.init false _ _ out
+
+/-- every run of the closed system at rest is accepted by `wireAccepts` for the bytes that arrived -/
+theorem E2E_closed_accepted (L : Layout) (x0 : Machine) (h0 : Machine.init L = some x0) (chunks : List Chunk)
+    (hal : Aligned chunks) (ms : List Move) (x : Machine) (e : Env)
+    (hrun : crun L (x0, Env.init (chunks.map Chunk.arrival)) ms = some (x, e)) (hrest : AtRest (x, e)) :
+    wireAccepts L (kbdBytes chunks) (tabBytes chunks)
+      ((callsSends (runScript L x0 (answers ms)).1).flatMap encodeBatch) = true := by
+  obtain ⟨h1, h2, h3⟩ := E2E_closed L x0 h0 chunks hal ms x e hrun hrest
+  exact (E2E_any L _ _ _).2 ⟨_, h1, h2, h3.symm⟩
+
+/-- the acceptor is not trivially true: a press written while tablet mode is on is rejected, the two
+legitimate orders of one key press and one `On` are accepted -/
+example :
+    wireAccepts c10Layout (encodeEvent (Event.pressed 30)) (encodeTabletEv TabletEv.on)
+      (encodeBatch [Event.pressed 30] ++ encodeBatch [Event.released 30]) = true ∧
+    wireAccepts c10Layout (encodeEvent (Event.pressed 30)) (encodeTabletEv TabletEv.on) [] = true ∧
+    wireAccepts c10Layout (encodeEvent (Event.pressed 30)) (encodeTabletEv TabletEv.on)
+      (encodeBatch [Event.pressed 30]) = false := by
+  decide +kernel
+
+end TmVerif
+
+#print axioms TmVerif.E2E_any
+#print axioms TmVerif.E2E_closed_accepted
